@@ -244,7 +244,8 @@ int main(int argc, char **argv) {
   uint64_t states = 0, trans = 0, refdiff = 0;
   for (const Setting &S : settings) {
     const double T = S.end - S.start;
-    std::vector< double > reqs = {2. * T, T, T / 3., T / 7., T / 64., 1e-30 * T, DBL_MAX};
+    // 0, the smallest denormal and a request just below one integer unit all give an integer step of 0
+    std::vector< double > reqs = {2. * T, T, T / 3., T / 7., T / 64., 1e-30 * T, DBL_MAX, 0., 4.9406564584124654e-324, std::ldexp(T, -63) * 0.999};
     if (S.tmin > 0.) {
       reqs.push_back(S.tmin);
       reqs.push_back(S.tmin * (1. - 1e-12));
